@@ -267,6 +267,7 @@ def _branch_and_price(
             bounds_proven = False
 
         if report_progress(on_progress, progress_interval, nodes_explored, lp_obj, best_obj, total_cg_iters):
+            bounds_proven = False  # the node just popped is abandoned: its subtree was not searched
             break
 
         # Prune infeasible or dominated
